@@ -85,6 +85,14 @@ impl ExclusiveExtractor for MultipartBody {
                     "missing boundary in content-type header".to_string(),
                 )
             })?;
+        // The parameter value ends at the next ";" (other parameters may
+        // follow) and may be written as a quoted string.
+        let boundary = boundary
+            .split(';')
+            .next()
+            .unwrap_or(boundary)
+            .trim()
+            .trim_matches('"');
         Ok(MultipartBody {
             content: multer::Multipart::new(
                 body.into_data_stream(),
